@@ -330,6 +330,9 @@ def tasks_for(ctx, quick):
         add("hcp", variants=((1, True),), nshell=2)
         add("hcp", variants=((2, False),))
         add("polarrect", chem=1, nshell=2, variants=((1, True), (2, True)))
+        # vacancy species listed SECOND with polar sites, first species on a non-polar (4mm) site: an origin-state
+        # vector basis looked up by the wrong (flat / first-species) atom index differs
+        add("sqpolar", chem=1, nshell=2, variants=((1, True), (2, True)))
         add("obliquepair", nshell=2, variants=((1, True), (2, True)))
         add("wurtzite", chem=0, variants=((1, True), (2, True)))
         add("b2displaced", nshell=2, variants=((1, True), (2, True)))
